@@ -15,7 +15,7 @@ Definition PO : Ops prov := prov_ops.
 
 (* encoder output / layer input: row r, column c (c ranges over ids), C channels *)
 Definition penc_at (off stride C : nat) (ids : list nat) (X : list nat) : pt3 :=
-  map (fun r => map (fun c => repeat (PVal [N.of_nat (off + r * stride + c)]) C) ids) X.
+  map (fun r => map (fun c => repeat (PVal [cell_id off stride r c]) C) ids) X.
 Definition penc (cols C : nat) (ids : list nat) (X : list nat) : pt3 := penc_at 0 cols C ids X.
 
 Definition pconst (n : nat) : pvec := repeat (PVal []) n.
@@ -23,7 +23,7 @@ Definition dense2 (n : nat) : pmat -> pmat := map (dense n).
 Definition dense3 (n : nat) : pt3 -> pt3 := map (map (dense n)).
 Definition prelu2 : pmat -> pmat := map (vfn PO FRelu).
 (* BatchNorm1d(width) in evaluation mode *)
-Definition pbn (width : nat) : pmat -> pmat := bn_eval PO (repeat (PVal [], PVal []) width).
+Definition pbn (width : nat) : pmat -> pmat := bn_eval PO (pconst width) (pconst width) (pconst width) (pconst width).
 (* normalization option of MLP / ResNet: 0 none, 1 layer_norm, 2 batch_norm *)
 Definition pnorm (k width : nat) : option (pmat -> pmat) :=
   match k with 0 => None | 1 => Some (dense2 width) | _ => Some (pbn width) end.
@@ -31,15 +31,27 @@ Definition pnorm_list (k width : nat) : list (pmat -> pmat) :=
   match pnorm k width with Some N => [N] | None => [] end.
 
 (* ---------------- the seven models ---------------- *)
-Definition p_mlp (norm layers cols C out : nat) (X : list nat) : option pmat :=
-  let hidden := concat (repeat ([dense2 C] ++ pnorm_list norm C ++ [prelu2]) layers) in
-  Some (mlp_forward PO C (penc cols C (seq 0 cols)) (sequential (hidden ++ [dense2 out])) X).
+(* Each p_<model> runs Model/Layers.v with the CASE'S OWN hyper-parameters and returns a list of
+   probes [B, K]: model-specific intermediate tensors (flattened per row), obtained by instantiating the
+   blocks downstream of the probe point with the identity, followed by the final output.  The harness
+   measures the same tensors on the real model with forward hooks. *)
+Definition idm : pmat -> pmat := fun x => x.
+Definition flat3 (T : pt3) : pmat := map (@concat prov) T.
 
-Definition p_resnet (norm layers cols C out : nat) (X : list nat) : option pmat :=
+(* MLP: [input of self.mlp ; output] *)
+Definition p_mlp (norm layers cols C out : nat) (X : list nat) : option (list pmat) :=
+  let enc := penc cols C (seq 0 cols) in
+  let blocks := concat (repeat ([dense2 C] ++ pnorm_list norm C ++ [prelu2]) layers) ++ [dense2 out] in
+  Some [mlp_forward PO C enc idm X; mlp_forward PO C enc (sequential blocks) X].
+
+(* ResNet: [input of self.backbone ; input of self.decoder ; output] *)
+Definition p_resnet (norm layers cols C out : nat) (X : list nat) : option (list pmat) :=
+  let enc := penc cols C (seq 0 cols) in
   let block i := fc_residual_block PO (dense2 C) (dense2 C) (pnorm norm C) (pnorm norm C)
                    (if (i =? 0) && negb (cols =? 1) then Some (dense2 C) else None) in
-  Some (resnet_forward (penc cols C (seq 0 cols)) (map block (seq 0 layers))
-          (sequential [dense2 C; prelu2; dense2 out]) X).
+  let blocks := map block (seq 0 layers) in
+  Some [resnet_forward enc [] idm X; resnet_forward enc blocks idm X;
+        resnet_forward enc blocks (sequential [dense2 C; prelu2; dense2 out]) X].
 
 (* FeatureTransformer: shared GLUBlock (2 layers, no first residual) if num_shared_glu_layers > 0,
    dependent GLUBlock with num_dependent_glu_layers layers *)
@@ -47,25 +59,54 @@ Definition p_feat_transformer (n_out shared dep : nat) (X : pmat) : pmat :=
   let x := if shared =? 0 then X else glu_block PO true (repeat (dense2 n_out) 2) X in
   if dep =? 0 then x else glu_block PO (shared =? 0) (repeat (dense2 n_out) dep) x.
 
-Definition p_tabnet (layers cols Ce split shared dep vbs out : nat) (X : list nat) : option pmat :=
+(* TabNet: [input of self.bn ; first attention mask ; output] *)
+Definition p_tabnet (layers cols Ce split shared dep vbs out : nat) (X : list nat) : option (list pmat) :=
   let width := cols * Ce in
+  let enc := penc cols Ce (seq 0 cols) in
   let ft := p_feat_transformer (2 * split) shared dep in
-  tabnet_forward PO (penc cols Ce (seq 0 cols)) (pbn width) ft split vbs
-    (repeat (dense2 width, pbn width, ft) layers) (dense2 out) X.
+  let steps := repeat (dense2 width, pbn width, ft) layers in
+  let x := pbn width (flat3 (enc X)) in
+  let mask0 := attentive PO (dense2 width) (pbn width) vbs (map (skipn split) (ft x)) (map (map (fun _ => o1 PO)) x) in
+  match tabnet_forward PO enc (pbn width) ft split vbs steps (dense2 out) X with
+  | Some y => Some [flat3 (enc X); mask0; y]
+  | None => None
+  end.
 
-Definition p_ft (cols C out : nat) (X : list nat) : option pmat :=
-  ft_forward (penc cols C (seq 0 cols)) (pconst C) (map dense_mat)
-    (sequential [dense2 C; prelu2; dense2 out]) X.
+(* FT-Transformer: [input of the TransformerEncoder (CLS token first) ; input of self.decoder ; output] *)
+Definition p_ft (cols C out : nat) (X : list nat) : option (list pmat) :=
+  let enc := penc cols C (seq 0 cols) in
+  match ft_convs (pconst C) (fun x => x) (enc X),
+        ft_forward enc (pconst C) (map dense_mat) idm X,
+        ft_forward enc (pconst C) (map dense_mat) (sequential [dense2 C; prelu2; dense2 out]) X with
+  | Some (x, c), Some dec_in, Some y => Some [zipw (@app prov) c (flat3 x); dec_in; y]
+  | _, _, _ => None
+  end.
 
 Definition p_tab_conv (H C : nat) : pt3 -> pt3 :=
   tab_conv PO H (C / H) (dense3 C) (dense3 C) (dense3 C) (dense3 C) (dense3 C) (dense3 (8 * C)) (dense3 C).
 
-Definition p_tabt (layers H cols C pad out : nat) (cat_ids num_ids : list nat) (X : list nat) : option pmat :=
-  let hidden := 2 in
-  tabt_forward (negb (length cat_ids =? 0)) (negb (length num_ids =? 0))
-    (penc cols (C - pad) cat_ids) (repeat (pconst pad) (length cat_ids)) (repeat (p_tab_conv H C) layers)
-    (penc cols 1 num_ids) (dense2 (length num_ids))
-    (sequential [dense2 hidden; pbn hidden; map (vfn PO FSelu); dense2 hidden; pbn hidden; map (vfn PO FSelu); dense2 out]) X.
+(* TabTransformer: [input of the first conv (categorical tokens with the positional pad) ; input of
+   self.decoder ; output]; the first probe only when there are categorical columns *)
+Definition p_tabt (layers H cols C pad out : nat) (cat_ids num_ids : list nat) (X : list nat) : option (list pmat) :=
+  let hc := negb (length cat_ids =? 0) in
+  let hn := negb (length num_ids =? 0) in
+  let len := length cat_ids * C + length num_ids in
+  let cat_enc := penc cols (C - pad) cat_ids in
+  let padm := repeat (pconst pad) (length cat_ids) in
+  let convs := repeat (p_tab_conv H C) layers in
+  let num_enc := penc cols 1 num_ids in
+  let num_norm := dense2 (length num_ids) in
+  let dec := sequential [dense2 (2 * len); pbn (2 * len); map (vfn PO FSelu); dense2 (4 * len); pbn (4 * len);
+                         map (vfn PO FSelu); dense2 out] in
+  match tabt_forward hc hn cat_enc padm convs num_enc num_norm idm X,
+        tabt_forward hc hn cat_enc padm convs num_enc num_norm dec X with
+  | Some dec_in, Some y =>
+      match (if hc then tabt_forward true false cat_enc padm [] num_enc num_norm idm X else Some []) with
+      | Some conv_in => Some ((if hc then [conv_in] else []) ++ [dec_in; y])
+      | None => None
+      end
+  | _, _ => None
+  end.
 
 (* GroupNorm on [B, P, cols, C]: normalises within one sample; over-approximated by "mixes the whole sample" *)
 Definition p_group_norm (Z : list pt3) : list pt3 :=
@@ -74,21 +115,33 @@ Definition p_trompt_conv (cols C P : nat) : pt3 -> pt3 -> option pt3 :=
   trompt_conv PO cols C P (repeat (pconst C) P) (repeat (pconst C) cols) (pconst P) (dense3 C) p_group_norm.
 Definition p_trompt_decoder (P C out : nat) : pt3 -> option pmat :=
   trompt_decoder PO P C (dense3 1) (dense2 out).
-Definition p_trompt (layers cols C P out : nat) (X : list nat) : option pt3 :=
-  trompt_forward (repeat (pconst C) P)
-    (repeat (penc cols C (seq 0 cols), p_trompt_conv cols C P) layers) (p_trompt_decoder P C out) X.
+(* Trompt: [the prompts after every layer, [B, layers * P * C] ; output [B, layers * out]] *)
+Definition p_trompt (layers cols C P out : nat) (X : list nat) : option (list pmat) :=
+  let ls := repeat (penc cols C (seq 0 cols), p_trompt_conv cols C P) layers in
+  match trompt_forward (repeat (pconst C) P) ls (fun xp => Some (flat3 xp)) X,
+        trompt_forward (repeat (pconst C) P) ls (p_trompt_decoder P C out) X with
+  | Some prompts, Some y => Some [flat3 prompts; flat3 y]
+  | _, _ => None
+  end.
 
 Definition p_excel_conv (cols H C : nat) : pt3 -> option pt3 :=
   excel_conv PO cols H (C / H) (dense3 C) (dense3 C) (dense3 C) (dense3 C)
     (if 1 <? H then Some (dense3 C) else None) (dense3 C) (dense3 C) (dense3 C).
 Definition p_excel_decoder (C out : nat) : pt3 -> pmat := excel_decoder PO C out (dense3 out) (dense3 1).
-Definition p_excel (layers H cols C out : nat) (X : list nat) : option pmat :=
-  excel_forward (penc cols C (seq 0 cols)) (repeat (p_excel_conv cols H C) layers) (p_excel_decoder C out) X.
+(* ExcelFormer: [input of the decoder, [B, cols * C] ; output] *)
+Definition p_excel (layers H cols C out : nat) (X : list nat) : option (list pmat) :=
+  let enc := penc cols C (seq 0 cols) in
+  let convs := repeat (p_excel_conv cols H C) layers in
+  match excel_forward enc convs flat3 X, excel_forward enc convs (p_excel_decoder C out) X with
+  | Some dec_in, Some y => Some [dec_in; y]
+  | _, _ => None
+  end.
 
 (* ---------------- footprints ---------------- *)
 (* Y : per output row, the input cells it depends on *)
 Definition depends_on_row (off stride n_in r : nat) (deps : list N) : bool :=
-  existsb (fun c => memb (off + r * stride + c) deps) (seq 0 n_in).
+  let ids := map (cell_id off stride r) (seq 0 n_in) in
+  existsb (fun x => existsb (N.eqb x) ids) deps.
 
 (* rows of the output that change when input row r is perturbed *)
 Definition rows_changed (off stride n_in : nat) (Y : list (list N)) (r : nat) : list nat :=
@@ -97,14 +150,14 @@ Definition rows_changed (off stride n_in : nat) (Y : list (list N)) (r : nat) : 
 
 (* input column c influences the output of its own row, for some row *)
 Definition col_reach (off stride n_in : nat) (Y : list (list N)) : list bool :=
-  map (fun c => existsb (fun r => match nth_error Y r with Some deps => memb (off + r * stride + c) deps | None => false end)
+  map (fun c => existsb (fun r => match nth_error Y r with Some deps => membN (cell_id off stride r c) deps | None => false end)
                         (seq 0 (length Y))) (seq 0 n_in).
 
 (* [c][c'] : input column c influences output column c' (of the same row, some row) *)
 Definition col_fp (off stride n_in n_out : nat) (Y : pt3) : list (list bool) :=
   map (fun c => map (fun c' => existsb (fun r => match nth_error Y r with
                                                 | Some row => match nth_error row c' with
-                                                              | Some v => memb (off + r * stride + c) (vdeps v)
+                                                              | Some v => membN (cell_id off stride r c) (vdeps v)
                                                               | None => false
                                                               end
                                                 | None => false
@@ -121,15 +174,30 @@ Fixpoint nats_eqb (a b : list nat) : bool :=
 Definition rows_ok (off stride n_in : nat) (Y : list (list N)) (measured : list (nat * list nat)) : bool :=
   forallb (fun p => nats_eqb (rows_changed off stride n_in Y (fst p)) (snd p)) measured.
 
-(* C14: a model output [B, out] (or [B, layers, out] flattened by the caller) *)
-Definition model_fp_ok (cols : nat) (Y : option (list (list N))) (B : nat)
-           (measured_rows : list (nat * list nat)) (measured_cols : list bool) : bool :=
-  match Y with
-  | Some Y => (length Y =? B) && rows_ok 0 cols cols Y measured_rows && bvec_eqb (col_reach 0 cols cols Y) measured_cols
+(* [c][k] : input column c influences position k of a probe [B, K] (in the same row, some row) *)
+Definition bmat_or (a b : list (list bool)) : list (list bool) := zipw (zipw orb) a b.
+Definition pos_fp (cols : nat) (T : pmat) : list (list bool) :=
+  let K := match T with r :: _ => length r | [] => 0 end in
+  fold_left (fun acc p =>
+               bmat_or acc (map (fun c => let id := cell_id 0 cols (fst p) c in map (fun x => membN id (pdeps x)) (snd p))
+                                (seq 0 cols)))
+            (combine (seq 0 (length T)) T) (repeat (repeat false K) cols).
+
+(* C14: the probes of a model; measured_rows from the final output, one measured matrix per probe
+   (None = the harness could not hook that tensor) *)
+Definition model_fp_ok (cols : nat) (Ps : option (list pmat)) (B : nat)
+           (measured_rows : list (nat * list nat)) (measured : list (option (list (list bool)))) : bool :=
+  match Ps with
+  | Some Ps =>
+      match rev Ps with
+      | final :: _ => (length final =? B) && rows_ok 0 cols cols (map vdeps final) measured_rows
+      | [] => false
+      end
+      && (length Ps =? length measured)
+      && forallb (fun p => match snd p with Some m => bmat_eqb (pos_fp cols (fst p)) m | None => true end)
+                 (combine Ps measured)
   | None => false
   end.
-Definition deps2 (Y : option pmat) : option (list (list N)) := option_map (map vdeps) Y.
-Definition deps3 (Y : option pt3) : option (list (list N)) := option_map (map mdeps) Y.
 
 (* C15: a layer output [B, n_out, C] for the input pin B cols C *)
 Definition pin (B cols C : nat) : pt3 := penc cols C (seq 0 cols) (seq 0 B).
@@ -182,3 +250,59 @@ Definition decoder_fp_ok (n_in B : nat) (Y : option pmat)
   | None => false
   end.
 Definition diagonal (n : nat) : list (list bool) := map (fun c => map (fun c' => c =? c') (seq 0 n)) (seq 0 n).
+
+(* ---------------- C15: the rejection (None) branches ---------------- *)
+Definition pshape (B n C : nat) : pt3 := repeat (repeat (pconst C) n) B.
+Definition is_none {A : Type} (o : option A) : bool := match o with None => true | Some _ => false end.
+Definition shp : Type := (nat * nat * nat)%type.
+Definition pshape' (s : shp) : pt3 := match s with (B, n, C) => pshape B n C end.
+(* observed : [((shape of x, shape of x_prompt), the real layer raised)] *)
+Definition trompt_conv_rejections_ok (cols C P : nat) (obs : list (shp * shp * bool)) : bool :=
+  forallb (fun o => Bool.eqb (is_none (p_trompt_conv cols C P (pshape' (fst (fst o))) (pshape' (snd (fst o))))) (snd o)) obs.
+Definition trompt_decoder_rejections_ok (P C out : nat) (obs : list (shp * bool)) : bool :=
+  forallb (fun o => Bool.eqb (is_none (p_trompt_decoder P C out (pshape' (fst o)))) (snd o)) obs.
+Definition excel_conv_rejections_ok (cols H C : nat) (obs : list (shp * bool)) : bool :=
+  forallb (fun o => Bool.eqb (is_none (p_excel_conv cols H C (pshape' (fst o)))) (snd o)) obs.
+
+(* ---------------- closed forms of the model-specific footprints (used in Props/C14.v) ---------------- *)
+Definition final_of (Ps : option (list pmat)) : option (list (list N)) :=
+  match Ps with
+  | Some Ps => match rev Ps with f :: _ => Some (map vdeps f) | [] => None end
+  | None => None
+  end.
+Definition probe_fp (cols k : nat) (Ps : option (list pmat)) : option (list (list bool)) :=
+  match Ps with
+  | Some Ps => option_map (pos_fp cols) (nth_error Ps k)
+  | None => None
+  end.
+Definition fp_matrix (cols K : nat) (f : nat -> nat -> bool) : list (list bool) :=
+  map (fun c => map (f c) (seq 0 K)) (seq 0 cols).
+Definition obmat_eqb (a : option (list (list bool))) (b : list (list bool)) : bool :=
+  match a with Some a => bmat_eqb a b | None => false end.
+
+(* ---------------- C15: the attention core at CHANNEL granularity ---------------- *)
+(* One row whose cell (column c, channel ch) carries the id c * C + ch, identity q/k/v projections:
+   the merged head outputs (the input of lin_out).  Input (l, ch') reaches output (j, ch) exactly when
+   ch' and ch lie in the same head block (and, for DiaM, l <= j).  This exercises the head reshape
+   (heads_split / chunks H / heads_merge) for the case's real (H, d), the einsum patterns and the
+   orientation of the mask; the harness measures the same on the real module with identity
+   projections installed and norm_1 bypassed. *)
+Definition pin_ch (cols C : nat) : pt3 :=
+  [map (fun c => map (fun ch => PVal [cell_id 0 C c ch]) (seq 0 C)) (seq 0 cols)].
+Definition idt3 : pt3 -> pt3 := fun x => x.
+Definition core_fp (cols C : nat) (Y : pt3) : list (list bool) :=
+  match Y with
+  | [row] => let flat := concat row in
+             map (fun i => let id := N.of_nat i in map (fun x => membN id (pdeps x)) flat) (seq 0 (cols * C))
+  | _ => []
+  end.
+Definition p_tab_core (H C cols : nat) : pt3 := mha PO H (C / H) (tab_post PO) idt3 idt3 idt3 (pin_ch cols C).
+Definition p_excel_core (H C cols : nat) : pt3 := mha PO H (C / H) (diam_post PO cols) idt3 idt3 idt3 (pin_ch cols C).
+(* `skip` leading output positions are not compared: an output column that attends to a single column has
+   softmax weight exp(s)/exp(s) = 1, a constant -- the score path then carries no dependence on the real
+   module although the provenance of exp(s)/exp(s) is non-empty.  (DiaM: output column 0; skip = C.) *)
+Definition core_ok (cols C skip : nat) (Y : pt3) (measured : option (list (list bool))) : bool :=
+  match measured with
+  | Some m => bmat_eqb (map (skipn skip) (core_fp cols C Y)) (map (skipn skip) m)
+  | None => true
+  end.
